@@ -10,6 +10,8 @@ from harness.core import cfg_text, Machinery
 from harness.drivers import channel as dc
 
 INVS = ["ReturnedMeansAll", "RaiseIfShut", "SendallOutcome", "SendallNoSpin"]
+MINVS = INVS + ["HangFree"]                    # model form of "never parked for good in the window wait"
+TINVS = INVS + ["NoHangInWindowWait"]          # its at-rest form, judged when a schedule of the real code has ended
 BASE = dict(UsersA={"a1", "a2"}, UsersB={"b1"}, Daemons="@{}", OpsA="@{}", OpsB="@{}", MaxCalls=1, W0=3, MaxPkt=2, PeerMax=2,
             Thresh=0, SendN=4, Codes={1}, ReadSizes={2}, Modes={"block"}, Loss=False,
             FixRace=True, FixSendall=True, FixCredit=True, Mut="none", SpinCap=3, HoldBack=False)
@@ -25,19 +27,26 @@ def model(c, runs):
     m3 = {"block", "timed", "nonblock"}
     small = dict(BASE, W0=2, SendN=3)
     jobs = [dict(name="sendall raises on send() == 0: 2+1 threads (sendall, shutdown_write, close | peer close), three timeout modes", module="Channel",
-                 cfg=cfg_text(constants=dict(small, OpsA={"sendall", "shutdown_write", "close"}, OpsB={"close"}, Modes=m3), invariants=INVS)),
+                 cfg=cfg_text(constants=dict(small, OpsA={"sendall", "shutdown_write", "close"}, OpsB={"close"}, Modes=m3), invariants=MINVS)),
             dict(name=SPIN, module="Channel", expect="SendallNoSpin",
                  cfg=cfg_text(constants=dict(BASE, UsersA={"a1"}, UsersB="@{}", OpsA={"sendall", "shutdown_write"}, MaxCalls=2,
                                              FixSendall=False, SendN=2), invariants=["SendallNoSpin"])),
             dict(name="sensitivity: early_return", module="Channel", expect="ReturnedMeansAll",
-                 cfg=cfg_text(constants=dict(small, UsersA={"a1"}, OpsA={"sendall", "sendall_err"}, OpsB={"recv"}, Mut="early_return"), invariants=INVS)),
+                 cfg=cfg_text(constants=dict(small, UsersA={"a1"}, OpsA={"sendall", "sendall_err"}, OpsB={"recv"}, Mut="early_return"), invariants=MINVS)),
+            dict(name="sensitivity: wait_window_only (the window wait re-tests only the window: a close wakes nobody)", module="Channel",
+                 expect="HangFree",
+                 cfg=cfg_text(constants=dict(small, UsersA={"a1"}, OpsA={"sendall"}, OpsB={"close"}, Mut="wait_window_only"), invariants=MINVS)),
             dict(name="liveness: every sendall ends (reader keeps reading; shutdown_write from a second thread)", module="Channel",
                  cfg=cfg_text(constants=dict(BASE, UsersB="@{}", Daemons={"dB_out"}, OpsA={"sendall", "shutdown_write"}, SendN=3), invariants=[], **LIVE)),
             dict(name="simulate (spec -> code)", module="Channel_Gen", simulate=True, expect="behaviours",
-                 cfg=cfg_text(spec="GSpec", constants=GEN, invariants=["GenEmit"]),
+                 cfg=cfg_text(spec="GSpec", constants=dict(GEN, HoldBack=dc.holdback()), invariants=["GenEmit"]),
                  kw=dict(workers=1, simulate="num=%d" % (60 if c.quick else 500), extra=["-depth", "150", "-seed", str(c.seed + 1)]))]
     if not c.quick:
         jobs += [
+            dict(name="liveness, wait_window_only: a parked sendall never ends after close / peer close / loss", module="Channel",
+                 expect="<liveness>",
+                 cfg=cfg_text(constants=dict(small, UsersB="@{}", Daemons={"dB_out"}, OpsA={"sendall", "close"}, Mut="wait_window_only"),
+                              invariants=[], **LIVE)),
             dict(name="liveness, pinned loop: a sendall never ends", module="Channel", expect="<liveness>",
                  cfg=cfg_text(constants=dict(BASE, UsersB="@{}", Daemons={"dB_out"}, OpsA={"sendall", "shutdown_write"},
                                              SendN=3, FixSendall=False), invariants=[], **LIVE)),
@@ -48,13 +57,14 @@ def model(c, runs):
             dict(name="transport loss, peer EOF / CLOSE, 1 thread x 2 calls (stdout and stderr variant), three modes", module="Channel",
                  kw={"timeout": 850, "workers": 4},
                  cfg=cfg_text(constants=dict(small, UsersA={"a1"}, OpsA={"sendall", "sendall_err"}, OpsB={"close", "shutdown_write", "recv"},
-                                             MaxCalls=2, Modes=m3, Loss=True), invariants=INVS)),
+                                             MaxCalls=2, Modes=m3, Loss=True), invariants=MINVS)),
             dict(name="2+1 threads x 2 calls (calls before and after shutdown_write / close / peer close)", module="Channel",
                  kw={"timeout": 850, "workers": 4},
                  cfg=cfg_text(constants=dict(small, OpsA={"sendall", "shutdown_write", "close"}, OpsB={"close"}, MaxCalls=2, SendN=2),
-                              invariants=INVS)),
+                              invariants=MINVS)),
         ]
     res = dc.mc_batch(c, jobs)
+    gen = dict(GEN, HoldBack=dc.holdback())
     # RP 1: the spin counterexample on the real code
     prog, plan = dc.plan_from_counterexample(res[SPIN], dict(BASE, SendN=2), U)
     ex = dc.replay_plan(prog, plan, max_steps=1500)
@@ -68,7 +78,7 @@ def model(c, runs):
         raise Machinery("Channel_Gen produced no behaviour\n%s" % res["simulate (spec -> code)"].out[-2000:])
     differ = 0
     for b in behs:
-        diffs, ex, prog, plan = dc.replay_behaviour(b, GEN, U)
+        diffs, ex, prog, plan = dc.replay_behaviour(b, gen, U)
         runs.add(prog, "tlc-behaviour", ex, plan)
         c.case(key=("beh", repr(b[1])))
         if diffs:
@@ -88,6 +98,14 @@ FIXED = [
     {"threads": {"a1": [("sendall", 40000)], "a2": [("close",)]}, "tmo": "timed"},
     {"threads": {"a1": [("sendall", 40000)]}, "tmo": "nonblock"},
     {"threads": {"a1": [("sendall", 40000)], "dB_out": [("recv_loop", 16384)]}, "tmo": "timed"},
+    # a blocking sender parked in the window wait (window 32768 used up, nobody reads), and then:
+    {"threads": {"a1": [("sendall", 40000)], "b1": [("close",)]}},                              # peer CLOSE (as above)
+    {"threads": {"a1": [("sendall_err", 40000)], "a2": [("close",)]}},                          # local close() from another thread
+    {"threads": {"a1": [("send", 32768), ("send", 5)], "a2": [("close",)]}},                    # plain send parked
+    {"threads": {"a1": [("sendall", 40000)], "a2": [("shutdown_write",)], "b1": [("recv", 65536)]}},   # shutdown_write, then a window adjust
+    {"threads": {"a1": [("sendall", 40000)]}, "lost": ["A"]},                                    # transport loss (_unlink)
+    {"threads": {"a1": [("sendall", 40000)], "b1": [("recv", 65536), ("recv", 65536)]}},        # window adjust: completes
+    {"threads": {"a1": [("sendall", 40000)], "a2": [("sendall_err", 40000)], "b1": [("close",)]}},   # two parked senders
 ]
 
 
@@ -121,7 +139,15 @@ def programs(rnd, n):
 
 def describe(clause, it, evs, l):
     fin = it["verdict"]["final"]
-    if clause == "P_SendallNoSpin":
+    if clause == "P_NoHangInWindowWait":
+        s = fin["sides"]
+        what = ("send/sendall parked in the window wait for good: when the schedule ended %s was still blocked in Channel._wait_for_send_window "
+                "although the channel is closed (A closed=%s, window %d) - woken by the close, it went back to sleep; it neither returns nor "
+                "raises. Last events: %s" % ([w["th"] for w in fin["waiting"] if w["at"] == "send_wait"], s["A"]["closed"], s["A"]["outwin"],
+                                            dc.brief(evs, len(evs))))
+    elif clause == "C_parked_after_shutdown_write":
+        what = "a sender parked in the window wait stays parked after shutdown_write() from another thread (nothing notifies the condition); program %r" % (it["prog"]["threads"],)
+    elif clause == "P_SendallNoSpin":
         what = ("sendall never returns: thread(s) %s still looping on send() == 0 when the step budget ended, nothing handed to the transport. "
                 "Last events: %s" % (", ".join(fin["spinning"]), dc.brief(evs, len(evs))))
     else:
@@ -147,14 +173,15 @@ def run(c):
     explored = dc.explore_into(runs, c, progs, 12 if c.quick else 150, 5 if c.quick else 40, deadline, bound=1 if c.quick else 2,
                                max_steps=1500)
     laps["explore_s"] = round(time.time() - t0 - laps["model+replay_s"], 1)
-    dc.validate(c, runs, INVS, describe)
+    dc.validate(c, runs, TINVS, describe)
     laps["validate_s"] = round(time.time() - t0 - laps["model+replay_s"] - laps["explore_s"], 1)
     c.extra["laps"] = laps
     c.rule = ("M: all interleavings of sendall / sendall_stderr with shutdown_write, close, shutdown(2), peer EOF/CLOSE, transport loss, "
-              "blocking / timed / non-blocking, 2-3 user threads per side x 1-2 calls; liveness under weak fairness. RP: the TLC spin "
+              "blocking / timed / non-blocking, 2-3 user threads per side x 1-2 calls, incl. senders parked in the window wait when the close / loss / adjust arrives; liveness under weak fairness. RP: the TLC spin "
               "counterexample and %d TLC-simulated behaviours (%d differing) driven on real channels. TV: %d of %d programs (sendall before / "
               "after / concurrent with shutdown_write, close, peer close, peer EOF, loss; windows 32768..2^32-1; three timeout modes) under DFS "
               "with bounded preemptions (capped) + seeded random schedules; distinct = (program, schedule)" % (nb, differ, explored, len(progs)))
     c.assumptions = ["'handed to the transport' = Transport._send_user_message was called with the bytes (a dead transport drops them there)",
                      "'shut down for writing / closed' is judged from the wire: the side's EOF or CLOSE had been handed over before the call started",
-                     "non-termination is observed as a bounded number (step budget 1500) of iterations without any hand-over"]
+                     "non-termination is observed as a bounded number (step budget 1500) of iterations without any hand-over, or as a schedule that ends (no thread can run, no timeout pending) with a sender still parked in the window wait of a closed channel",
+                     "a sender parked when ANOTHER thread calls shutdown_write() is not required to wake before the window moves (reported as conformance note C_parked_after_shutdown_write)"]
